@@ -194,10 +194,11 @@ class World:
         self.p = lw.Parameter(env.R[1], label="p")
         self.p2 = lw.Parameter(env.R2, label="p")      # same label: only identity tells the two apart
         self.pd = lw.ParameterDict(a=self.p, b=self.p2)
+        self.pdmap = {"a": self.p, "b": self.p2}        # what the dictionary must hold, by key
         self.circs = []     # dicts: tmpl, circ, frozen (None | (v, v2))
 
     def key(self):
-        return (snap(self.p), snap(self.p2),
+        return (snap(self.p), snap(self.p2), tuple(k + ("1" if v is self.p else "2") for k, v in self.pdmap.items()),
                 tuple((c["tmpl"], c["kind"], repr(c["frozen"])) for c in self.circs))
 
 
@@ -211,6 +212,32 @@ def apply_b(w, op):
             w.p2.set(op[1])
         elif k == "pdset":
             w.pd["a"] = op[1]
+        elif k == "pd_overwrite":       # an existing key cannot be re-pointed at another Parameter
+            try:
+                w.pd["a"] = lw.Parameter(0.9)
+            except lw.ParameterDictError:
+                return "rejected"
+            w.pdmap["a"] = None
+        elif k == "pd_alias":           # a second key for p2; later updates through it reach p2
+            if "c" in w.pdmap:
+                raise kernel.Skip()
+            w.pd["c"] = w.p2
+            w.pdmap["c"] = w.p2
+        elif k == "pd_alias_set":
+            if "c" not in w.pdmap:
+                raise kernel.Skip()
+            w.pd["c"] = op[1]
+        elif k == "pd_remove":          # forgetting a key does not detach the Parameter from its circuits
+            if "b" not in w.pdmap:
+                raise kernel.Skip()
+            w.pd.remove("b")
+            del w.pdmap["b"]
+        elif k == "pd_new_plain":       # a new key must be given a Parameter
+            try:
+                w.pd["z"] = 0.3
+            except lw.ParameterDictError:
+                return "rejected"
+            w.pdmap["z"] = None
         elif k == "minb":
             w.p.min_bound = op[1]
         elif k == "maxb":
@@ -257,6 +284,22 @@ def check_world(w, case, acc):
     for p in (w.p, w.p2):
         if not in_bounds(p):
             acc.violation("value_outside_bounds", case, {"state": snap(p)})
+    # the dictionary is a view of the same objects
+    inf = float("inf")
+    want_b = {k: (q.min_bound if q.min_bound is not None else -inf, q.max_bound if q.max_bound is not None else inf)
+              for k, q in w.pdmap.items() if q is not None}
+    try:
+        ok = (list(w.pd) == list(w.pdmap) and len(w.pd) == len(w.pdmap) and w.pd.params == list(w.pdmap)
+              and all(w.pd[k] is q for k, q in w.pdmap.items())
+              and w.pd.items() == [(k, q.get()) for k, q in w.pdmap.items()]
+              and w.pd.get_bounds() == want_b
+              and w.pd.has_bounds() == any(q.has_bounds() for q in w.pdmap.values())
+              and all(k in w.pd for k in w.pdmap) and "zz" not in w.pd)
+    except Exception as e:  # noqa: BLE001
+        ok = False
+        acc.violation("parameter_dict_view_raises", case, {"error": repr(e)})
+    if not ok:
+        acc.violation("parameter_dict_out_of_sync", case, {"keys": list(w.pd.keys()), "expected": list(w.pdmap)})
     for item in w.circs:
         v, v2 = item["frozen"] if item["frozen"] is not None else (w.p.get(), w.p2.get())
         ref = ref_template(item["tmpl"], v, v2, env)
@@ -298,6 +341,7 @@ def explore_b(env, depth):
     g, g2 = env.R[1], env.L[1]
     alpha = [("set", v) for v in (g, g2, 0, 1, 1.5, -0.2)] + [("set2", v) for v in (env.R2, 1.25, g)] \
         + [("pdset", g2), ("pdset", 1.5), ("minb", 0), ("maxb", 1), ("maxb", None), ("minb", None)] \
+        + [("pd_overwrite",), ("pd_alias",), ("pd_alias_set", 1.25), ("pd_alias_set", g2), ("pd_remove",), ("pd_new_plain",)] \
         + [("make", t) for t in TEMPLATES] + [("copy",), ("freeze",)] \
         + [("rewrite", r) for r in ("unpack", "compress", "remove_nonadj")]
 
